@@ -616,6 +616,8 @@ func (k Keeper) WithdrawAppReserveFundsFn(ctx sdk.Context, appId, assetId uint64
 				return err
 			}
 		}
+	} else {
+		return fmt.Errorf("app reserve funds %s are smaller than the required %s", appReserveFunds.TokenQuantity, tokenQuantity)
 	}
 	appReserveFunds.TokenQuantity.Amount = appReserveFunds.TokenQuantity.Amount.Sub(tokenQuantity.Amount)
 	k.SetAppReserveFunds(ctx, appReserveFunds)
